@@ -10,7 +10,7 @@ git apply "$D/patch.diff" || { echo "patch does not apply"; res=2; }
 if [ $res = 0 ]; then
   out=$(cargo test --offline 2>&1); echo "$out" | grep -E "^test result" | head -3
   echo "$out" | grep -q "^test result: ok. 57 passed" && echo "SUITE-WITH-PATCH: pass" || { echo "SUITE-WITH-PATCH: FAIL"; res=1; }
-  git apply "$D/demo.diff" || { echo "demo does not apply on patch"; res=2; }
+  git apply "$D/demo.diff" || { echo "demo does not apply on top of the patch: applying demo first"; git checkout -q -- . ; git clean -fdq -e target; git apply "$D/demo.diff" && git apply "$D/patch.diff" || { echo "demo and patch do not combine"; res=2; }; }
   out=$(RUSTFLAGS="${DEMO_RUSTFLAGS:-}" cargo test --offline 2>&1); echo "$out" | grep -E "^test result|^test .*FAILED" | head -8
   echo "$out" | grep -q "FAILED" && echo "DEMO-WITH-PATCH: fails (good)" || { echo "DEMO-WITH-PATCH: passes (BAD)"; res=1; }
   git checkout -q -- . ; git clean -fdq -e target
